@@ -10,7 +10,7 @@ func init() {
 	register(&propDef{
 		id: "C24", title: "Connection compression is transparent",
 		technique: "wiring rules over the syntax tree and CFG: flush-before-acknowledge on the write path, codec pairing of reader and writer per ConnWrapper implementation, delegation shape of the flush adapters",
-		explanation: "Decides the wiring the transparency of a compressed connection rests on, for every ConnWrapper implementation (gzip, zstd, brotli): (1) compressedConn.Write reports success only after the codec writer's Flush returned nil on the same path (the bytes of every successful Write are on the wire, which the request/response framing relies on), passes the caller's buffer unchanged and returns the count of the underlying Write; Read delegates to the codec reader with the caller's buffer; (2) every Wrap builds its connection from a reader and a writer of the SAME codec package, both attached to the connection it was given (writer Reset/constructed over conn, reader reading from conn), and passes that same connection as the raw one; (3) every first-party flushWriter adapter's Write and Flush delegate to the wrapped codec writer's Write and Flush (no no-op flush); (4) Close ends the codec stream (closer) before closing the raw connection. That a codec's decoder inverts its encoder for all inputs and segmentations is the codec library's contract and is NOT decided. Added after seed C24a: Write never reassigns or re-slices the caller's buffer.",
+		explanation: "Decides the wiring the transparency of a compressed connection rests on, for every ConnWrapper implementation (gzip, zstd, brotli): (1) compressedConn.Write reports success only after the codec writer's Flush returned nil on the same path (the bytes of every successful Write are on the wire, which the request/response framing relies on), passes the caller's buffer unchanged and returns the count of the underlying Write; Read delegates to the codec reader with the caller's buffer; (2) every Wrap builds its connection from a reader and a writer of the SAME codec package, both attached to the connection it was given (writer Reset/constructed over conn, reader reading from conn), and passes that same connection as the raw one; (3) every first-party flushWriter adapter's Write and Flush delegate to the wrapped codec writer's Write and Flush (no no-op flush); (4) Close ends the codec stream (closer) before closing the raw connection. That a codec's decoder inverts its encoder for all inputs and segmentations is the codec library's contract and is NOT decided. Added after seed C24a: Write never reassigns or re-slices the caller's buffer. Added after the probe round: the lazily initialised gzip reader is Reset exactly once, inside its sync.Once.",
 		assumptions: []string{"compress/gzip, klauspost/zstd and andybalholm/brotli decoders invert their encoders across arbitrary flush points"},
 		minObl:     20,
 		run:        runC24,
@@ -156,6 +156,49 @@ func runC24(c *Ctx) {
 		if n < 3 {
 			c.Undecided("count", "gzip, zstd and brotli wrappers found", "-", "found "+itoa(n))
 		}
+	})
+
+	c.Rule("lazy-reader", func() {
+		// the gzip read side is initialised lazily: its Reset (which consumes the stream header and discards all decoder
+		// state) runs at most once per connection, i.e. only inside the sync.Once — a Reset on a later Read would
+		// drop buffered input and re-parse payload bytes as a header
+		fn := c.Func("internal/net", "gzipLazyReader.Read")
+		info := fn.Info()
+		gr := c.Field("internal/net", "gzipLazyReader", "gr")
+		n, bad := 0, ""
+		var stack []ast.Node
+		ast.Inspect(fn.Decl.Body, func(nd ast.Node) bool {
+			if nd == nil {
+				stack = stack[:len(stack)-1]
+				return true
+			}
+			stack = append(stack, nd)
+			call, ok := nd.(*ast.CallExpr)
+			if !ok {
+				return true
+			}
+			sel, ok := ast.Unparen(call.Fun).(*ast.SelectorExpr)
+			if !ok || sel.Sel.Name != "Reset" || selField(info, sel.X) != gr {
+				return true
+			}
+			n++
+			inOnce := false
+			for j := len(stack) - 2; j >= 1; j-- {
+				if lit, ok := stack[j].(*ast.FuncLit); ok {
+					if oc, ok := stack[j-1].(*ast.CallExpr); ok && len(oc.Args) == 1 && oc.Args[0] == ast.Expr(lit) {
+						if cal := callee(info, oc); cal != nil && qualifiedName(cal) == "sync.(*Once).Do" {
+							inOnce = true
+						}
+					}
+					break
+				}
+			}
+			if !inOnce {
+				bad = c.P.Pos(call.Pos())
+			}
+			return true
+		})
+		c.Check(n == 1 && bad == "", "reset-once", "the gzip reader is reset (header consumed, decoder state discarded) exactly once per connection, inside the sync.Once", c.P.Pos(fn.Decl.Pos()), "Reset outside the Once at "+bad)
 	})
 
 	c.Rule("adapters", func() {
